@@ -259,7 +259,9 @@ def drive(case, **kw):
     elif mode == "append":
         eng, kernels, states = build_engine(case, eps[:1], **kw)
         eng.sample_next_epoch()
-        for e in eps[1:]:
+        for j, e in enumerate(eps[1:]):
+            if case.get("bad_appends"):
+                try_bad_append(eng, j, case["chunk"])
             eng.append_epoch(e)
             eng.sample_next_epoch()
     else:  # mixed
@@ -271,10 +273,30 @@ def drive(case, **kw):
         while i < len(rest):
             n = 1 + (i % 2)
             for e in rest[i: i + n]:
+                if case.get("bad_appends"):
+                    try_bad_append(eng, i, case["chunk"])
                 eng.append_epoch(e)
             eng.sample_all_epochs()
             i += n
     return eng, kernels, states
+
+
+def try_bad_append(eng, j, chunk):
+    """An invalid epoch is offered to append_epoch; the rejection must leave the schedule untouched."""
+    from liesel.goose.epoch import EpochConfig, EpochType
+
+    d = 3 * chunk
+    bad = [EpochConfig(EpochType.POSTERIOR, d, 2 * d, None),            # thinning > duration
+           EpochConfig(EpochType.BURNIN, d, 0, None),                   # thinning < 1
+           EpochConfig(EpochType.POSTERIOR, 5 * chunk, 2 * chunk + 1, None) if (5 * chunk) % (2 * chunk + 1) else
+           EpochConfig(EpochType.POSTERIOR, 7 * chunk, 2 * chunk + 1, None),   # duration not a multiple of thinning
+           EpochConfig(EpochType.INITIAL_VALUES, 1, 1, None),           # a second initial-values epoch
+           EpochConfig(EpochType.FAST_ADAPTATION, 0, 1, None)][j % 5]   # duration < 1
+    try:
+        eng.append_epoch(bad)
+    except RuntimeError:
+        return
+    raise AssertionError(f"append_epoch accepted the invalid epoch {bad}")
 
 
 # ---------------------------------------------------------------------------
